@@ -209,6 +209,39 @@ pub fn constructs(thorough: bool) -> Vec<Construct> {
             }));
         }
     }
+    // the answer of an iterator past its end, used as its static type says it can be (a stage
+    // that changes the element type must answer with a value of *its* element type)
+    for (i, (source, usage)) in [
+        ("[1, 2]~ @ (q9: int) -> string { return \"m\" }", "v9 + \"!\""),
+        ("[1]~ @ (q9: int) -> [int] { return [q9] }", "std.len(v9)"),
+        ("[\"a\"]~ @ (q9: string) -> int { return 1 }", "v9 + 1"),
+        ("[1]~ @ (q9: int) -> float { return 1.5 }", "v9 + 1.0"),
+        ("[1]~ @ (q9: int) -> bool { return true }", "!v9"),
+        ("[1]~ @ (q9: int) -> (int, string) { return (q9, \"s\") }", "v9.1 + \"!\""),
+        ("[1]~ @ (q9: int) -> struct{a: string} { return struct{ a := \"s\" } }", "v9.a + \"!\""),
+        ("[\"a\"]~ ? (q9: string) -> bool { return true }", "v9 + \"!\""),
+        ("[1, \"a\"]~ ? string", "v9 + \"!\""),
+        ("[1, \"a\"]~ ? int @ (q9: int) -> string { return \"m\" }", "v9 + \"!\""),
+        ("[\"a\"]~ $] ~", "v9 + \"!\""),
+        ("[1]~ @ (q9: int) -> string { return \"m\" } ? (q9: string) -> bool { return true }", "v9 + \"!\""),
+    ]
+    .into_iter()
+    .enumerate()
+    {
+        v.push(stmt_c(&format!("exhausted-answer-used#{i}"), 1, move |o| {
+            format!("x9 := {}; it9 := {source}; it9(); it9(); it9(); (c9, v9) := it9(); return {usage};", o[0])
+        }));
+    }
+    // a function declared `-> !` never hands anything back: bodies that can complete must be
+    // rejected, and if one is accepted, calling it where a value is expected shows the `()`
+    for (i, body) in ["", "loop { break }", "z9 := 1", "if false { return g9() }", "while false { }", "for e9 in [1]~ { }", "match 1 { 1 => 1, => 0, }", "if true { } else { return g9() }"].into_iter().enumerate() {
+        v.push(stmt_c(&format!("declared-never-function-completes#{i}"), 2, move |o| {
+            format!("g9 := () -> ! {{ {body} }}; r9 := if {} == {} {{ g9() }} else {{ {} }}; return r9;", o[0], o[0], o[1])
+        }));
+        v.push(stmt_c(&format!("declared-never-anonymous-function-completes#{i}"), 1, move |o| {
+            format!("h9 := (q9: any) -> ! {{ {body} }}; r9 := [{}, h9(1)]; return r9;", o[0]).replace("return g9()", "return h9(q9)")
+        }));
+    }
     v.push(stmt_c("closure-typed-result", 1, |o| format!("h := ((q: int) -> int {{ return q }}); r := h(1); return ({}, r);", o[0])));
     // exits inside a function that is itself inside a loop belong to the function, not to the loop
     v.push(stmt_c("break-in-fn-in-loop", 1, |o| {
